@@ -524,6 +524,10 @@ func runC01(a vh.Args, o *vh.Oracle, r *vh.Result) error {
 	}
 	r.Rule = "case = (blob, chunk triple, seed set {exact, stale, empty, self-aliasing, duplicated}, prior target content, invalid-seed action, N, clone emulation on/off, schedule seed); every case runs AssembleFile in a child process (panic/hang observable); non-trivial = has seeds or a pre-existing target; distinct by parameters + blob prefix"
 	if a.Replay != "" {
+		var pc c01PlanCase
+		if err := readJSON(a.Replay, &pc); err == nil && (len(pc.IDs) > 0 || len(pc.Seeds) > 0) {
+			return c01PlanOne(o, r, &pc)
+		}
 		var c c01Case
 		if err := readJSON(a.Replay, &c); err != nil {
 			return err
@@ -573,5 +577,12 @@ func runC01(a vh.Args, o *vh.Oracle, r *vh.Result) error {
 	if a.Tier == "thorough" {
 		nclone = 20000
 	}
-	return c01Clone(a, o, r, rng, nclone)
+	if err := c01Clone(a, o, r, rng, nclone); err != nil {
+		return err
+	}
+	nplan := 4000
+	if a.Tier == "thorough" {
+		nplan = 150000
+	}
+	return c01Plan(o, r, rng, nplan)
 }
